@@ -398,6 +398,9 @@ func init() {
 				fmt.Sscanf(v, "%d", &s.jitter)
 			}
 			s.voluntaryChoice = Params["sched_voluntary_choice"] != ""
+			if v := Params["poll_cost_ns"]; v != "" {
+				fmt.Sscanf(v, "%d", &s.pollCost)
+			}
 			if v := Params["max_clock_advance_ns"]; v != "" {
 				fmt.Sscanf(v, "%d", &s.maxAdv)
 			}
